@@ -55,12 +55,14 @@ VARIABLE case
 Init ==
    \* unsized: the body comes from a reader net/http cannot size (ContentLength 0 = unknown; a pipe, a MultiReader)
    \/ \E id \in DOMAIN Schemas, sec \in Secs, preset \in BOOLEAN, skip \in BOOLEAN, ct \in {"application/json", "application/json; charset=utf-8"},
-         un \in BOOLEAN :
+         un \in BOOLEAN, pad \in {"none", "newline", "spaces"} :
         \E v \in Bodies[id] :
            /\ (ct # "application/json" => sec \in {"none", "pass_read"})
            /\ (un => ~preset /\ ct = "application/json")
+           \* pad: white space around the JSON text (a trailing newline, as curl --data-binary @file sends; indentation): part of the bytes received
+           /\ (pad # "none" => ~un /\ ct = "application/json" /\ sec \in {"none", "pass_read", "fail_read"})
            /\ case = [kind |-> "body", id |-> id, schema |-> Schemas[id], v |-> v, sec |-> sec, preset |-> preset, skip |-> skip, ct |-> ct,
-                      unsized |-> un]
+                      unsized |-> un, pad |-> pad]
    \/ \E loc \in {"query", "header", "cookie"}, shape \in {"int", "str", "arr"}, explode \in {"unset", "true", "false"},
          present \in BOOLEAN, skip \in BOOLEAN, other \in BOOLEAN :
         /\ (shape = "arr" => loc = "query")
